@@ -35,7 +35,8 @@ CFG = {
         "in the driver (one cell per SetCell, last write wins, outside the window dropped)",
     ],
     "assumptions": ["Segmentation cl (three laws, see trusted_base) for the *_clustered theorems; cl = singletons for the others",
-                    "uint cursor arithmetic does not wrap (guarded subtractions only)"],
+                    "uint cursor arithmetic does not wrap (guarded subtractions only)",
+                    "textinput_cursor_at_grapheme_wide: graphemes at most 2 columns wide and more than 6 columns after the prompt; textinput_cursor_scrolled: non-negative widths"],
     "level_text": "Proved for all histories from any starting content, for graphemes that never merge AND for texts whose graphemes merge under any "
                   "Segmentation (typed/pasted combining marks, joiners, variation selectors, flags, jamo; deletions that bring parts of a grapheme "
                   "together): textfield_refines(_clustered) (+ invariant n = count, cursor <= length), textfield_callbacks_exact(_clustered), "
